@@ -214,6 +214,13 @@ func (g *gen) visitorCfg(typ string) (v1.VisitorConfigurer, obj) {
 		t.S("fallbackTo", &x.FallbackTo, []string{"", "", "stcp-visitor"})
 		t.I("fallbackTimeoutMs", &x.FallbackTimeoutMs, []int64{0, 1000, 50})
 	}
+	if g.chance(0.5) {
+		ip := g.pick([]string{"10.10.0.5", "192.168.7.1", ""})
+		b.Plugin = v1.TypedVisitorPluginOptions{Type: v1.VisitorPluginVirtualNet,
+			VisitorPluginOptions: &v1.VirtualNetVisitorPluginOptions{Type: v1.VisitorPluginVirtualNet, DestinationIP: ip}}
+		// both keys are written even when empty: the options struct has no omitempty
+		o = append(o, kv{"plugin", obj{{"type", v1.VisitorPluginVirtualNet}, {"destinationIP", ip}}})
+	}
 	return vc, o
 }
 
